@@ -32,6 +32,7 @@ class Harness(object):
     g.update({
         'c': dn(env.c), 'it': dn(env.it), 'it2': dn(env.it2), 'it3': dn(env.it3), 't': dn(env.t), 'cm': dn(env.cm),
         'mark': dn(env.mark), 'E': tapemod.E, 'E2': tapemod.E2, 'G': 9,
+        'p': tapemod.Obj(),    # what `p` means in programs that never bind it locally
     })
     if extra_globals:
       g.update(extra_globals)
